@@ -413,6 +413,105 @@ def droc(ctx):
         _ob(ctx, c, k, ok, "DROC: x and y of a point come from the same get_scores request", "DROC: x and y of a point come from different requests")
 
 
+# ---------------------------------------------------------------------------------------------------------------- Reliability
+def _strip_guards(v):
+    """ifexp(c1, ifexp(c2, V, default), default) -> ([c1, c2], V) where default is NaN or 0"""
+    conds = []
+    while isinstance(v, Rat):
+        at = v.as_atom("ifexp")
+        if at is None or len(at.args) != 3 or not isinstance(at.args[2], Rat):
+            break
+        d = at.args[2]
+        if d.key() not in ("$nan", "$np.nan") and not d.is_zero():
+            break
+        conds.append(at.args[0])
+        v = at.args[1]
+    return conds, v
+
+
+def _row_elem(arg):
+    """arg = A[f] -> (element (f, i) of A after all stores, i, f)"""
+    at = arg.as_atom("getitem") if isinstance(arg, Rat) else None
+    if at is None or not isinstance(at.args[1], Rat):
+        return None
+    row = at.args[1]
+    idxs = []
+
+    def stores(a):
+        if not isinstance(a, Rat):
+            return
+        s_ = a.as_atom("setitem")
+        if s_ is not None:
+            idxs.append(s_.args[1])
+            stores(s_.args[0])
+            return
+        e = a.as_atom("ifexp")
+        if e is not None:
+            stores(e.args[1])
+            stores(e.args[2])
+    stores(at.args[0])
+    for ix in idxs:
+        if isinstance(ix, tuple) and len(ix) == 2 and _k(ix[0]) == _k(row):
+            v = arrays.elem_at(at.args[0], ix)
+            if v is not None:
+                return arrays.read_back(v), ix[1], row
+    return None
+
+
+def reliability(ctx):
+    c, calls = _fold(ctx, "Reliability")
+    if calls is None:
+        return
+    ser = [k for k in calls if _is_series(k)]
+    ctx.need(ser, "Reliability: series call not found")
+    ref_x = _expr("mean(P[I])", "PI")
+    ref_y = _expr("mean(O[I])", "OI")
+    for k in ser:
+        f_idx = _series_input_index(k)
+        hx, hy = _column_elem(k["args"][0]), _row_elem(k["args"][1])
+        if hx is None:
+            hx = _row_elem(k["args"][0])
+        if hy is None:
+            hy = _column_elem(k["args"][1])
+        if hx is None or hy is None:
+            raise symeval.Undecided("Reliability: the drawn series is not a row / column f of a matrix stored at the bin index")
+        sel = {}
+        seen_all = {}
+
+        def is_sel(a):
+            if a.func == "getitem" and isinstance(a.args[0], Rat) and a.args[0].as_atom("where") is not None and _k(a.args[1]) == "0":
+                sel[a.id] = a
+                return True
+            return False
+        res = []
+        for (v, i_idx, col), ref, nm in ((hx, ref_x, "x = mean forecast probability of the cases in the bin"), (hy, ref_y, "y = observed frequency of the cases in the bin")):
+            ok = f_idx is None or _k(col) == _k(f_idx)
+            _ob(ctx, c, k, ok, "reliability diagram: the series of input f is row / column f", "reliability diagram: row / column %s drawn with the label of input %s" % (_k(col), _k(f_idx)))
+            v2, seen = arrays.abstract(v, [("I", is_sel), ("O", lambda a: a.func == "call:verif.util.apply_threshold"),
+                                           ("P", lambda a: a.func == "call:verif.util.apply_threshold_prob")])
+            for n_, ats in seen.items():
+                seen_all.setdefault(n_, []).extend(ats)
+            conds, core = _strip_guards(v2)
+            ok = isinstance(core, Rat) and core.equals(ref)
+            _ob(ctx, c, k, ok, "reliability diagram: %s" % nm, "reliability diagram: %s is %s" % (nm.split(" ")[0], str(core)[:200]))
+            res.append(i_idx)
+        ok = len(sel) == 1 and _k(res[0]) == _k(res[1])
+        _ob(ctx, c, k, ok, "reliability diagram: x and y of a point are means over one and the same selection of cases, stored at the same bin index",
+            "reliability diagram: x and y of a point use %d different selections / bin indices (%s, %s)" % (len(sel), _k(res[0]), _k(res[1])))
+        g = _same_scores(ctx, c, k, {n_: a for n_, a in seen_all.items() if n_ in ("O", "P")}, ["call:verif.field.Obs()", "call:verif.field.Threshold("], f_idx, {"O": 0, "P": 1})
+        ok, why = bool(seen_all.get("O")) and bool(seen_all.get("P")), "observed event / probability not found"
+        thr = None
+        if g is not None:
+            ta = g.args[0][1].as_atom("call:verif.field.Threshold") if isinstance(g.args[0][1], Rat) else None
+            thr = ta.args[0] if ta is not None and ta.args else None
+        for name in ("O", "P"):
+            for a in seen_all.get(name, []):
+                if len(a.args) < 3 or _k(a.args[1]) != "$self.bin_type" or thr is None or _k(a.args[2]) != _k(thr):
+                    ok, why = False, "%s is %s" % (name, str(Rat.of_atom(a))[:200])
+        _ob(ctx, c, k, ok, "reliability diagram: observed event and event probability are taken with the user's bin type at the threshold the probability was requested for",
+            "reliability diagram: event wiring changed: %s" % why)
+
+
 # ---------------------------------------------------------------------------------------------------------------- maps
 def map_columns(ctx):
     """C16.8: on the map of input f (panel f + 1 of _setup_map) every marker is selected and coloured by column f of the score matrix:
@@ -457,9 +556,9 @@ def map_columns(ctx):
 def check_diagram_values(ctx):
     from ..core import AnalysisError
     n0 = ctx.rule_counts.get(RULE, 0)
-    for fn in (murphy, roc, error, performance, droc):
+    for fn in (murphy, roc, error, performance, droc, reliability):
         try:
             fn(ctx)
         except symeval.Undecided as e:
             raise AnalysisError("C16.7 %s: outside the analysable fragment: %s" % (fn.__name__, e))
-    ctx.floor(RULE, 24)
+    ctx.floor(RULE, 30)
